@@ -93,7 +93,14 @@ def run(ctx, rep):
         if inc.op != 'add' or not any(IR.is_int(o) and IR.ival(o) == 1 for o in inc.ops):
             continue
         after_sleep = any(paths_reach(fn, j, inc) for j in ps) and not paths_reach(fn, fn.entry.insts[0], inc, avoid=ps_or_poll(mod, fn))
-        cmps = [u for u in um.get(inc.id, []) if u.op == 'icmp' and any(IR.is_int(o) and IR.ival(o) > 0 for o in u.ops)
+        # the comparison may see the counter through phis (a saturating `if (count < N) count++`)
+        flow, work = {inc.id}, [inc.id]
+        while work:
+            x = work.pop()
+            for u in um.get(x, []):
+                if u.op == 'phi' and u.id not in flow:
+                    flow.add(u.id); work.append(u.id)
+        cmps = [u for x in sorted(flow) for u in um.get(x, []) if u.op == 'icmp' and any(IR.is_int(o) and IR.ival(o) > 0 for o in u.ops)
                 and u.x['pred'] in ('eq', 'uge', 'ugt', 'sge', 'sgt')]
         if after_sleep and cmps:
             ok_counter = True
